@@ -239,8 +239,13 @@ func (e *Engine) Candidates(checkpoint string) []string {
 	for _, n := range list {
 		if ok, why := e.allowedCandidate(n, checkpoint); !ok {
 			e.rec(Op{K: "candidates", Name: checkpoint, Arg: fmt.Sprint(list)})
-			e.Fail("C11", "candidates:forbidden:"+why, fmt.Sprintf("cleaner candidate list %v (checkpoint %s) contains %s: %s; chain %v", list, checkpoint, n, why, e.M.ChainNames()))
-			return nil
+			if e.Prop == "C11" || e.M.Find(n) <= 0 || e.M.Find(n) >= len(e.M.Chain)-1 {
+				e.Fail("C11", "candidates:forbidden:"+why, fmt.Sprintf("cleaner candidate list %v (checkpoint %s) contains %s: %s; chain %v", list, checkpoint, n, why, e.M.ChainNames()))
+				return nil
+			}
+			// other checks let the cleaner have its way and judge by what happens to data and snapshots
+			e.Res.Count("other_property_observation:C11:candidates:forbidden:"+why, 1)
+			return []string{n}
 		}
 		if seen[n] {
 			e.Fail("C11", "candidates:duplicate", fmt.Sprintf("candidate list repeats %s: %v", n, list))
@@ -419,7 +424,15 @@ func RunWorker(prop string, seed uint64, worker, cases int, scratch, out string)
 		e := &Engine{Prop: prop, Dir: filepath.Join(scratch, fmt.Sprintf("r%d", c)), R: vk.NewRand(cs), Res: res, Seed: cs, Case: worker*1000 + c, Journal: j}
 		fmt.Fprintf(j, "{\"case\":%d,\"seed\":%d,\"prop\":%q}\n", e.Case, cs, prop)
 		switch {
-		case prop == "C11" && worker < 2 && c == 0:
+		case prop == "C01" && worker == 0 && (c == 0 || c%40 == 20):
+			RunFragmented(e)
+			res.Cases++
+			sig, _ := e.CaseSig()
+			res.Sig(sig)
+			res.WriteFile(out)
+			j.Close()
+			continue
+		case (prop == "C11" && worker < 2 || prop == "C06" && worker == 0) && c == 0:
 			// two workers spend their first case on the real cleaner loop (60 s ticker)
 			rounds := 1
 			if cases > 50 {
